@@ -67,6 +67,8 @@ func main() {
 		writeJSON(*out, Determinism(*profile, *seed, *n, *tier, *keep, self))
 	case "export":
 		writeJSON(*out, ExportRoundTrip(*profile, *seed, *n, *tier, *keep))
+	case "kernels":
+		writeJSON(*out, Kernels(*seed, *n, *driver, *keep))
 	case "campaign":
 		res := Campaign(*profile, *seed, *n, *tier, *driver, *keep, *par)
 		writeJSON(*out, res)
